@@ -4,6 +4,7 @@ CONSTANTS
   Threads <- GThreads
   Thr = 2
   Tol = 2
+  Fresh <- GFresh
   Credits <- GCredits
   Pays <- GPays
   Reserves <- GReserves
